@@ -47,6 +47,28 @@ reg("C06", "exploration",
     "for absence of unexpected exception types; value equality at one generic rational assignment.",
     "DESIGN.md 3/C06")
 
+reg("C01", "exploration",
+    "exhaustive walk of every node of every published equation of the catalogue under an "
+    "independent exponent-vector dimension calculus",
+    "The space is finite (every public relational attribute of all 766 catalogue modules and "
+    "packages) and is enumerated completely; every node of every equation tree gets a dimension "
+    "from the declared dimensions of its leaves and the property's rules are checked at each "
+    "sum, relation, min/max, piecewise, exponent, exp/trig/hyperbolic argument, integral limit.",
+    "Judged against declared dimensions; plain sympy symbols are wildcards; rules for matrix "
+    "products, Laplacian and bare CoordSys3D coordinates as documented in vp/eqdims.py.",
+    "DESIGN.md 3/C01")
+
+reg("C04", "exploration",
+    "exhaustive enumeration of a box of (declared, actual) dimension pairs with one-deviation "
+    "sweeps, and of every guard of every decorated catalogue function",
+    "All exponent-vector pairs of the box go through the real validate_input / validate_output / "
+    "validate_output_same decorators; magnitude, zero/inf/nan, prefix, keyword passing, kind of "
+    "declaration, direction and container are swept one deviation at a time and compared with a "
+    "three-valued reference verdict; the catalogue part drives every guarded parameter of every "
+    "decorated function with 7 wrong dimensions and a bare number.",
+    "Exponents outside the box are not explored; reference verdict from vp/dims.py.",
+    "DESIGN.md 3/C04")
+
 
 def build() -> dict:
     props = [json.loads(l)["id"] for l in open(os.path.join(ROOT, "properties.jsonl"))]
